@@ -91,7 +91,13 @@ def formatterStrWrap : Value → Option Bytes
   | _ => none
 
 /-- `Custom::as_string` of the harness's custom value type -/
-def customStr (t : Bytes) : Bytes := strBytes "<" ++ t ++ strBytes ">"
+def customStr (t : Bytes) : Bytes :=
+  -- `MemoCustom` (tag `memo:<x>`): stringified through the formatter memoizer by a `Memoizable` whose
+  -- construction fails for tags starting with `bad` (fallback `!err`), else `[x]`
+  if (strBytes "memo:").isPrefixOf t then
+    let x := t.drop 5
+    if (strBytes "bad").isPrefixOf x then strBytes "!err" else strBytes "[" ++ x ++ strBytes "]"
+  else strBytes "<" ++ t ++ strBytes ">"
 
 /-! ## English plural rules (enough for the resolver tie; other locales: `FluentModel/Plural.lean`, C12) -/
 
